@@ -175,6 +175,13 @@ def check_C15(ctx, w):
 
 CHECKS = {"C01": check_C01, "C03": check_C03, "C06": check_C06, "C15": check_C15}
 
+TECH = "TLA+ design model (SodImpl) explored exhaustively by TLC, one generated test per model transition replayed on the real code, every recorded trace validated by TLC against the trace specification (SodTrace) with the property's invariant"
+META = {
+    "C01": dict(level="model_checking", technique=TECH,
+                text="TLC checks the refinement invariants (every read path = abstract map, under every cache/async setting) on all reachable states of the bounded design model; every transition of that model is executed on the real code and the recorded reads (Get twice, GetByUUID, Exist, Count, All incl. never-stored and deleted ids) are validated by TLC against the map rebuilt from acknowledged writes; seeded random histories extend to 8 objects and extreme values"),
+}
+NOT_YET = {}
+
 
 # --------------------------------------------------------------------------- driver
 
